@@ -62,9 +62,11 @@ Qed.
 
 Lemma ctx_ok_spec : forall lg tb x, ctx_ok lg tb x = true <-> ctx_P lg tb x.
 Proof.
-  intros lg tb x. unfold ctx_ok, ctx_P. cbv zeta.
-  rewrite !andb_true_iff, orb_true_iff, !forallb_forall. split.
-  - intros [[HA HC] HB]. split; [|split].
+  intros lg tb x. unfold ctx_ok, ctx_P. cbv zeta. split.
+  - intros H. apply andb_true_iff in H. destruct H as [H HB].
+    apply andb_true_iff in H. destruct H as [HA HC].
+    apply orb_true_iff in HA. rewrite forallb_forall in HC. rewrite forallb_forall in HB.
+    split; [|split].
     + destruct HA as [HA|HA]; [left; exact HA|right].
       rewrite forallb_forall in HA. intros p Hp Hs. specialize (HA p Hp). rewrite implb_true in HA. auto.
     + exact HC.
@@ -73,11 +75,11 @@ Proof.
       * rewrite implb_true in HB. exact HB.
       * apply andb_true_iff in HB. destruct HB as [H1 H2]. rewrite implb_true in H2.
         split; [destruct (unprimed (x_sub x)); [discriminate|reflexivity]|exact H2].
-  - intros [HA [HC HB]]. split; [split|].
-    + destruct HA as [HA|HA]; [left; exact HA|right].
+  - intros [HA [HC HB]]. apply andb_true_iff. split; [apply andb_true_iff; split|].
+    + apply orb_true_iff. destruct HA as [HA|HA]; [left; exact HA|right].
       rewrite forallb_forall. intros p Hp. rewrite implb_true. auto.
-    + exact HC.
-    + intros p Hp. rewrite implb_true. intros Hv. specialize (HB p Hp Hv).
+    + rewrite forallb_forall. exact HC.
+    + rewrite forallb_forall. intros p Hp. rewrite implb_true. intros Hv. specialize (HB p Hp Hv).
       destruct (lookup p (x_pend x)) as [w|].
       * rewrite implb_true. exact HB.
       * destruct HB as [H1 H2]. apply andb_true_iff. split; [rewrite H1; reflexivity|].
@@ -139,8 +141,9 @@ Lemma kept_change : forall lg tb s ep cl at_ n,
   kept_P (mkEntry ep cl at_ (n + 1) :: lg) (record_entries tb (mkEntry ep cl at_ (n + 1))) s.
 Proof.
   intros lg tb s ep cl at_ n HK Hs Hb p Hp Hst.
-  destruct (record_entries_facts (mkEntry ep cl at_ (n + 1)) tb) as [R1 [R2 _]].
+  assert (Hb' : forall e, In e tb -> e_id e <= e_id (mkEntry ep cl at_ (n + 1))).
   { intros e He. specialize (Hb e He). cbn. lia. }
+  destruct (record_entries_facts (mkEntry ep cl at_ (n + 1)) tb Hb') as [R1 [R2 _]].
   apply stale_cons in Hst. destruct Hst as [Hst|Hm].
   - destruct (HK p Hp Hst) as [Hu|Hc]; [left; exact Hu|right; apply R1; exact Hc].
   - right. apply R2; [exact Hm|cbn; lia].
@@ -151,8 +154,9 @@ Lemma ctx_change : forall lg tb x ep cl at_ n,
   ctx_P (mkEntry ep cl at_ (n + 1) :: lg) (record_entries tb (mkEntry ep cl at_ (n + 1))) x.
 Proof.
   intros lg tb x ep cl at_ n [HA [HC HB]] Hs Hn Hb.
-  destruct (record_entries_facts (mkEntry ep cl at_ (n + 1)) tb) as [R1 [R2 _]].
+  assert (Hb' : forall e, In e tb -> e_id e <= e_id (mkEntry ep cl at_ (n + 1))).
   { intros e He. specialize (Hb e He). cbn. lia. }
+  destruct (record_entries_facts (mkEntry ep cl at_ (n + 1)) tb Hb') as [R1 [R2 _]].
   split; [|split].
   - destruct HA as [HA|HA]; [left; exact HA|right].
     intros p Hp Hst. apply stale_cons in Hst. destruct Hst as [Hst|Hm].
@@ -184,9 +188,10 @@ Proof.
     - cbn. split; [lia|intros s []].
     - cbn [fold_left]. destruct (IH (N.min a (s_seen h))) as [I1 I2]. split; [lia|].
       intros s [Heq|Hin]; [subst; lia|apply I2; exact Hin]. }
+  destruct (G t (s_seen s0)) as [G1 G2].
   intros s [Heq|Hin].
-  - subst s. apply (G t (s_seen s0)).
-  - apply (G t (s_seen s0)). exact Hin.
+  - subst s. exact G1.
+  - apply G2. exact Hin.
 Qed.
 
 (** contexts: find / remove / replace *)
@@ -270,30 +275,40 @@ Proof.
       * exact HB.
 Qed.
 
+Lemma visit_fold_facts : forall lg tb n,
+  (forall e, In e lg -> e_id e <= n) ->
+  forall ps x, ctx_P lg tb x ->
+  ctx_P lg tb (fold_left (fun x0 p0 => visit n x0 p0 (should_report tb x0 p0)) ps x) /\
+  x_sub (fold_left (fun x0 p0 => visit n x0 p0 (should_report tb x0 p0)) ps x) = x_sub x /\
+  x_nseen (fold_left (fun x0 p0 => visit n x0 p0 (should_report tb x0 p0)) ps x) = x_nseen x /\
+  (forall q, mem_path q (x_vis x) = true ->
+             mem_path q (x_vis (fold_left (fun x0 p0 => visit n x0 p0 (should_report tb x0 p0)) ps x)) = true) /\
+  (forall p, In p ps ->
+             mem_path p (x_vis (fold_left (fun x0 p0 => visit n x0 p0 (should_report tb x0 p0)) ps x)) = true).
+Proof.
+  intros lg tb n Hlg ps. induction ps as [|p ps IH]; intros x HP.
+  - cbn [fold_left]. split; [exact HP|]. split; [reflexivity|]. split; [reflexivity|].
+    split; [intros q Hq; exact Hq|intros p0 Hin; destruct Hin].
+  - cbn [fold_left].
+    assert (HP1 : ctx_P lg tb (visit n x p (should_report tb x p))) by (apply visit_ctx_P; assumption).
+    destruct (IH _ HP1) as [I1 [I2 [I3 [I4 I5]]]].
+    split; [exact I1|]. split; [rewrite I2; apply visit_sub|]. split; [rewrite I3; apply visit_nseen|].
+    split.
+    + intros q Hq. apply I4. apply visit_vis_mono. exact Hq.
+    + intros q Hin. destruct Hin as [Heq|Hin].
+      * subst q. apply I4. apply visit_vis_self.
+      * apply I5. exact Hin.
+Qed.
+
 Lemma visit_rest_facts : forall lg tb n x,
   ctx_P lg tb x -> (forall e, In e lg -> e_id e <= n) ->
-  let x' := visit_rest tb n x in
-  ctx_P lg tb x' /\ x_sub x' = x_sub x /\ x_nseen x' = x_nseen x /\
-  x_nseen_ev x' = x_nseen_ev x /\ x_now x' = x_now x /\
-  forall p, In p (s_paths (x_sub x)) -> mem_path p (x_vis x') = true.
+  ctx_P lg tb (visit_rest tb n x) /\ x_sub (visit_rest tb n x) = x_sub x /\
+  x_nseen (visit_rest tb n x) = x_nseen x /\
+  forall p, In p (s_paths (x_sub x)) -> mem_path p (x_vis (visit_rest tb n x)) = true.
 Proof.
   intros lg tb n x HP Hlg. unfold visit_rest.
-  generalize (s_paths (x_sub x)) as ps. intros ps. revert x HP.
-  induction ps as [|p ps IH]; intros x HP.
-  - cbn [fold_left]. repeat split; try assumption. intros p [].
-  - cbn [fold_left]. set (x1 := visit n x p (should_report tb x p)).
-    assert (HP1 : ctx_P lg tb x1) by (apply visit_ctx_P; assumption).
-    destruct (IH x1 HP1) as [I1 [I2 [I3 [I4 [I5 I6]]]]].
-    split; [exact I1|]. split; [rewrite I2; apply visit_sub|]. split; [rewrite I3; apply visit_nseen|].
-    split; [rewrite I4; unfold x1, visit; destruct (mem_path p (x_vis x)); reflexivity|].
-    split; [rewrite I5; unfold x1, visit; destruct (mem_path p (x_vis x)); reflexivity|].
-    intros q [Heq|Hq].
-    + subst q. clear - x1.
-      assert (G : forall ps y, mem_path p (x_vis y) = true ->
-                mem_path p (x_vis (fold_left (fun x0 p0 => visit n x0 p0 (should_report tb x0 p0)) ps y)) = true).
-      { induction ps as [|r ps IHps]; intros y Hy; [exact Hy|]. cbn [fold_left]. apply IHps. apply visit_vis_mono. exact Hy. }
-      apply G. apply visit_vis_self.
-    + apply I6. exact Hq.
+  destruct (visit_fold_facts lg tb n Hlg (s_paths (x_sub x)) x HP) as [I1 [I2 [I3 [_ I5]]]].
+  split; [exact I1|]. split; [exact I2|]. split; [exact I3|exact I5].
 Qed.
 
 (** the subscription put back after a delivered report *)
@@ -425,8 +440,9 @@ Proof.
     constructor; cbn [next_chg nchg tab log subs ctxs count].
     + apply next_id_next. exact Hb.
     + intros e He.
-      destruct (record_entries_facts (mkEntry ep cl at_ (nchg st + 1)) (tab st)) as [_ [_ R3]].
+      assert (Hb' : forall e', In e' (tab st) -> e_id e' <= e_id (mkEntry ep cl at_ (nchg st + 1))).
       { intros e' He'. pose proof (i_tab st I e' He'). cbn. lia. }
+      destruct (record_entries_facts (mkEntry ep cl at_ (nchg st + 1)) (tab st) Hb') as [_ [_ R3]].
       apply (R3 (nchg st + 1)); [intros e' He'; pose proof (i_tab st I e' He'); lia|cbn; lia|exact He].
     + intros e [Heq|He]; [subst e; cbn; lia|pose proof (i_log st I e He); lia].
     + intros s Hs. pose proof (i_seen st I s Hs). lia.
@@ -483,31 +499,27 @@ Proof.
     pose proof (i_xev st I x Hx) as Hxe.
     assert (Hn : forall s' keep, nchg (report_complete st sid s' keep) = nchg st).
     { intros. unfold report_complete. destruct (cancelled st); [reflexivity|]. destruct keep; reflexivity. }
+    assert (Hd : forall s1 s2, report_complete st sid s1 false = report_complete st sid s2 false).
+    { intros. unfold report_complete. destruct (cancelled st); reflexivity. }
     destruct r; cbn [fst]; rewrite Hn; (split; [|lia]).
     + (* delivered *)
       destruct (visit_rest_facts (log st) (tab st) (nchg st) x (i_ctx st I x Hx) (i_log st I))
-        as [V1 [V2 [V3 [V4 [V5 V6]]]]].
-      apply (report_complete_inv st sid x); try assumption.
+        as [V1 [V2 [V3 V6]]].
+      apply (report_complete_inv st sid x _ I Hf).
       * apply sub_after_ok_kept; [exact V1|]. rewrite V2. exact V6.
       * unfold sub_after_ok, with_core. cbn [s_seen]. rewrite V3. exact Hxs2.
       * unfold sub_after_ok, with_core. cbn [s_seen_ev s_dev]. lia.
     + (* failed *)
-      apply (report_complete_inv st sid x); try assumption.
+      apply (report_complete_inv st sid x _ I Hf).
       * apply sub_after_fail_kept. apply (i_ctx st I). exact Hx.
       * unfold sub_after_fail, with_core. cbn [s_seen]. lia.
       * unfold sub_after_fail, with_core. cbn [s_seen_ev s_dev]. exact Hxe.
     + (* dropped *)
-      unfold report_complete. destruct (cancelled st).
-      * pose proof (report_complete_inv st sid x (sub_after_fail x) I Hf) as G.
-        unfold report_complete in G.
-        assert (G' := G (sub_after_fail_kept _ _ _ (i_ctx st I x Hx))).
-        unfold sub_after_fail, with_core in G'. cbn [s_seen s_seen_ev s_dev] in G'.
-        specialize (G' ltac:(lia) Hxe false). destruct (cancelled st) in G'; exact G'.
-      * pose proof (report_complete_inv st sid x (sub_after_fail x) I Hf) as G.
-        unfold report_complete in G.
-        assert (G' := G (sub_after_fail_kept _ _ _ (i_ctx st I x Hx))).
-        unfold sub_after_fail, with_core in G'. cbn [s_seen s_seen_ev s_dev] in G'.
-        specialize (G' ltac:(lia) Hxe false). destruct (cancelled st) in G'; exact G'.
+      rewrite (Hd (x_sub x) (sub_after_fail x)).
+      apply (report_complete_inv st sid x _ I Hf).
+      * apply sub_after_fail_kept. apply (i_ctx st I). exact Hx.
+      * unfold sub_after_fail, with_core. cbn [s_seen]. lia.
+      * unfold sub_after_fail, with_core. cbn [s_seen_ev s_dev]. exact Hxe.
   - (* OReportBegin *)
     destruct (report_slot_free st); cbn [fst]; [|split; [exact I|lia]].
     destruct (find_index _ (subs st)) as [i|]; cbn [fst]; [|split; [exact I|lia]].
@@ -601,12 +613,15 @@ Definition f7_witness : list op :=
 Lemma unfixed_purge_refuted : inv_b (run_gen false init f7_witness) = false.
 Proof. vm_compute. reflexivity. Qed.
 
-(** ... and that subscription is not reportable although its subscriber is out of date *)
+(** ... and that subscription is not reportable although its subscriber is out of date (until the
+    liveness report, which will not carry the attribute either) *)
 Lemma unfixed_purge_refuted_not_reportable :
   let st := run_gen false init f7_witness in
-  exists s, In s (subs st) /\ stale (log st) (s_del s) f7_path = true /\
-            is_reportable s 30000 (tab st) (evn st) = false.
-Proof. vm_compute. eexists. split; [left; reflexivity|]. split; reflexivity. Qed.
+  existsb (fun s => stale (log st) (s_del s) f7_path &&
+                    negb (unprimed s) &&
+                    negb (is_reportable s 20000 (tab st) (evn st)) &&
+                    negb (contains_since (tab st) f7_path (s_seen s))) (subs st) = true.
+Proof. vm_compute. reflexivity. Qed.
 
 Lemma fixed_purge_witness_ok : inv_b (run init f7_witness) = true.
 Proof. vm_compute. reflexivity. Qed.
